@@ -35,13 +35,14 @@ def alt_modfile():
         pass
     return os.path.join(d, "go.mod")
 
-def goenv():
+def goenv(harness=False):
     e = dict(os.environ)
     e["GOPROXY"] = "off"
     e["GOFLAGS"] = "-mod=mod"
     if REPO != "/repo":
-        e["GOFLAGS"] += " -modfile=" + alt_modfile()
         e["VERIF_REPO"] = REPO
+        if harness:
+            e["GOFLAGS"] += " -modfile=" + alt_modfile()
     e["GOTOOLCHAIN"] = "auto"
     e.pop("GOSUMDB", None)
     e.setdefault("HOME", "/root")
@@ -136,9 +137,9 @@ def build_go(cmds):
     for c in cmds:
         if c.endswith(".race"):
             # race-detector build of the same command (thorough tier of C18)
-            p = run(["go", "build", "-race", "-tags", "verif", "-o", os.path.join(BIN, c), "./cmd/" + c[:-5]], cwd=HARNESS, env=goenv(), timeout=1800)
+            p = run(["go", "build", "-race", "-tags", "verif", "-o", os.path.join(BIN, c), "./cmd/" + c[:-5]], cwd=HARNESS, env=goenv(True), timeout=1800)
         else:
-            p = run(["go", "build", "-tags", "verif", "-o", os.path.join(BIN, c), "./cmd/" + c], cwd=HARNESS, env=goenv(), timeout=900)
+            p = run(["go", "build", "-tags", "verif", "-o", os.path.join(BIN, c), "./cmd/" + c], cwd=HARNESS, env=goenv(True), timeout=900)
         if p.returncode != 0:
             ok = False
             logs.append(p.stdout)
